@@ -56,6 +56,11 @@ struct Val {
     id: u64,
     log: Arc<Log>,
 }
+impl std::fmt::Debug for Val {
+    fn fmt(&self, f: &mut std::fmt::Formatter<'_>) -> std::fmt::Result {
+        write!(f, "Val({})", self.id)
+    }
+}
 impl Drop for Val {
     fn drop(&mut self) {
         let seq = self.log.next();
@@ -304,6 +309,28 @@ pub fn history(seed: u64, idx: u64) -> Case {
                             // the closure has not started (yet): it must not panic at some unknown later time
                             disarm.store(true, Ordering::SeqCst);
                             results.lock().unwrap().push(format!("{}:cancel_running:started={}", i, started.load(Ordering::SeqCst)));
+                            if started.load(Ordering::SeqCst) {
+                                // the abandoned closure sits on its closed gate and owns the value: looking at the
+                                // wrapper (Debug, as a log line or an error message would) is not blocking work and
+                                // must not wait for it. Formatted on a thread of its own so that a formatter that
+                                // does wait cannot wedge the history; it ends when the gates open.
+                                let w3 = w.clone();
+                                let (tx, rx) = std::sync::mpsc::channel();
+                                drop(std::thread::spawn(move || {
+                                    let s = format!("{:?}", w3);
+                                    let _ = tx.send(s.len());
+                                }));
+                                let t0 = std::time::Instant::now();
+                                let mut got = None;
+                                while got.is_none() && t0.elapsed() < Duration::from_secs(3) {
+                                    got = rx.try_recv().ok();
+                                    if got.is_none() {
+                                        tokio::time::sleep(Duration::from_micros(200)).await;
+                                    }
+                                }
+                                log.note_async();
+                                results.lock().unwrap().push(format!("{}:debug_while_running:{}", i, if got.is_some() { "returned" } else { "blocked" }));
+                            }
                         }
                     }
                     Op::CancelQueued => {
@@ -507,6 +534,11 @@ pub fn history(seed: u64, idx: u64) -> Case {
                 let ok = f[2] == "ok";
                 if !poisoned && !ok {
                     v("interact_result", format!("a completing closure on a healthy wrapper returned {}", r));
+                }
+            }
+            Some("debug_while_running") => {
+                if f[2] != "returned" {
+                    v("debug_blocked_async_thread", format!("formatting the wrapper with {{:?}} while an abandoned closure was parked on it had not returned after 3 s ({})", r));
                 }
             }
             Some("panic") => {
